@@ -62,6 +62,10 @@ CLAIMED = {
          'For all expressions of the calculus (literals, variables, sequence, +, one- and two-variable for, one- and two-variable let, some, every; any nesting and shadowing) accepted by the parser range-variable check, all heaps and caller dictionaries: value = lexical-scope value, caller dictionaries unchanged, same result after any earlier evaluations. PARTIAL for "any expression": purity and repeatability of the remaining functions / operators, of token caches, of the tree and of mutable atomic values are observed on histories over a fixed pool (timezone write-through was found there and fixed in /repo), not proved. Generator laziness is not modelled (eager model).',
          'Trusted: Coq kernel; hand model C05/Model.v impl (tied by correspondence); harness rendering of programs; snapshots by repr/slots. No axioms.',
          'DESIGN.md §6 C05'),
+ 'C16': ('Coq proofs that the generator loops of fold-left / fold-right / for-each / filter / for-each-pair equal the F&O definitional expansions (any item type, any failing function item), that fn:sort (stable insertion-sort model of sorted()) is a stable ordered permutation, that function items created by one expression are independent (token-store model; refuted for the pre-fix code), and that a dynamic call is the direct evaluation of the body; correspondence of typed random programs against the executable reference semantics (lexical closures, partial application, HOFs)',
+         'HOF expansions and sort: for all sequences, keys and function items. Closures / calls / partial application: the reference semantics C16.Model.eval is an executable specification evaluated by vm_compute and compared with the implementation on generated programs (closures created in for/let scopes, factories, calls in any order and number) - PARTIAL: it is not a model of the token machinery (XPathFunction.__call__, to_partial_function), named function references and collations are observed only. Partial application of shared function items is a known finding; two closure defects were fixed in /repo.',
+         'Trusted: Coq kernel; hand transcription of the HOF loops; Python sorted() stable; harness rendering. No axioms.',
+         'DESIGN.md §6 C16'),
 }
 
 NOT_YET = {}
